@@ -71,6 +71,7 @@ def reference(model_kind, act_name, batches, momentum):
     ref = {(n, w): None for n, _ in mods for w in ("in", "out")}
     hist = {(n, w): [] for n, _ in mods for w in ("in", "out")}
     actual = {(n, w): [] for n, _ in mods for w in ("in", "out")}
+    amax = {}
     adopted = {}
     with torch.no_grad(), Calibration(momentum=momentum, streamline=(model_kind == "chain-streamline")):
         for x in batches:
@@ -94,6 +95,7 @@ def reference(model_kind, act_name, batches, momentum):
                             ref[(n, w)] = adopted[n]
                         else:
                             ref[(n, w)] = a if ref[(n, w)] is None else float(momentum) * ref[(n, w)] + (1 - float(momentum)) * a
+                            amax[(n, w)] = max(amax.get((n, w), 0.0), a)
                         hist[(n, w)].append(ref[(n, w)])
                     cur = mod.forward(cur)
                 else:
@@ -102,8 +104,8 @@ def reference(model_kind, act_name, batches, momentum):
     for n, mod in mods:
         if mod.activation_qtype is None:
             continue
-        out.append((n, "in", float(mod.input_scale), ref[(n, "in")], hist[(n, "in")], actual[(n, "in")]))
-        out.append((n, "out", float(mod.output_scale), ref[(n, "out")], hist[(n, "out")], actual[(n, "out")]))
+        out.append((n, "in", float(mod.input_scale), ref[(n, "in")], hist[(n, "in")], actual[(n, "in")], amax.get((n, "in"), 0.0)))
+        out.append((n, "out", float(mod.output_scale), ref[(n, "out")], hist[(n, "out")], actual[(n, "out")], amax.get((n, "out"), 0.0)))
     return out
 
 
@@ -238,7 +240,9 @@ def run_case(case, res):
                         vals = [r.tr(cmap[x.uid]) if x.uid in cmap else r.tr(x) for x in info["raws"][n][t]]
                     a_list.append(absmax_ref(vals))
                 ref = ema_ref(r, a_list, mz)
-                tol = rv(8 * u) * ref + rv(4 * eta)
+                # float rounding relative to the operands of the average (an algebraically equivalent form such as
+                # s + (new - s)(1 - m) rounds relative to the larger of s and new, not to the result)
+                tol = rv(8 * u) * sum(a_list) + rv(4 * eta)
                 for gi, g in enumerate((sr - ref, ref - sr)):
                     v, secs, model_ = api.solve(pre + [g > tol], 90)
                     res.query("scale-is-momentum-average", "RERR", v, secs, sub=f"{n}.{which} N={N} m={case['momentum']} path={sig} side{gi}")
@@ -284,10 +288,10 @@ def replay(rec):
     rows = reference(inp["model"], inp["act"], batches, mom)
     rows09 = reference(inp["model"], inp["act"], batches, 0.9) if mom != 0.9 else rows
     bad, keys = [], set()
-    for (n, w, got, exp, hist, act_), (_, _, got9, exp9, _, _) in zip(rows, rows09):
+    for (n, w, got, exp, hist, act_, amx), (_, _, got9, exp9, _, _, _) in zip(rows, rows09):
         if exp is None:
             continue
-        tol = 1e-5 * abs(exp) + 1e-30
+        tol = 1e-5 * max(abs(exp), amx) + 1e-30
         if abs(got - exp) > tol:
             bad.append(f"{n}.{w}_scale = {got!r}, momentum-{mom} average of the batch ranges is {exp!r} (history {hist})")
             if any(h == 1.0 for h in list(hist[:-1]) + list(act_[:-1])):
